@@ -148,7 +148,7 @@ class VHDX(AlignedStream):
                 # Seek into the bitmap to where we are relative in the cluster
                 self.fh.seek((sector_bitmap_entry.file_offset_mb * MB) + byte_idx)
                 # Read the bitmap for the amount of sectors we're interested in, rounded up
-                sector_bitmap = self.fh.read((read_count + 8 - 1) // 8)
+                sector_bitmap = self.fh.read((bit_idx + read_count + 8 - 1) // 8)
 
                 # Calculate runs from the bitmap and read from the correct source
                 relative_sector = 0
